@@ -142,6 +142,16 @@ class StubDriver:
 
     def differential_evolution(self, fun, bounds, x0=None, **kw):
         lo, hi = _bounds_arrays(bounds, len(bounds))
+        if kw.get('workers') == -1:
+            # multi-process workers: every evaluation happens on a pickled
+            # copy of the objective (and of the lens behind it); the parent's
+            # lens does not move until optiland writes the result
+            pool = SimPool(len(self.plan) + 17, self.stats)
+            self.stats['pool_runs'] = self.stats.get('pool_runs', 0) + 1
+            inner = fun
+
+            def fun(x):
+                return pool.map(inner, [x])[0]
         x, f, nfev = self._run(fun, x0, lo, hi)
         return OptimizeResult(x=x, fun=f, success=True, nfev=nfev, nit=nfev,
                               message='stub driver')
